@@ -1,3 +1,4 @@
 import GoProbeModel.Base.Wire
 import GoProbeModel.Base.Outcome
 import GoProbeModel.Props.C13
+import GoProbeModel.Props.C22
